@@ -860,3 +860,27 @@ func twinFields(emit func(a, b gen.B) bool) bool {
 	}
 	return true
 }
+
+// bytePairFields calls emit with 16-byte field values in which two neighbouring bytes are a
+// format delimiter and any other byte (both orders), once inside the first machine word and once
+// across the boundary between the first and the second (an 8-bytes-at-a-time scanner sees a
+// delimiter, its neighbour, and the carry between them).
+func bytePairFields(delims string, exclude string, emit func(val gen.B) bool) bool {
+	for _, d := range []byte(delims) {
+		for b := 0; b < 256; b++ {
+			if strings.IndexByte(exclude, byte(b)) >= 0 {
+				continue
+			}
+			for _, pair := range [][2]byte{{d, byte(b)}, {byte(b), d}} {
+				for _, off := range []int{3, 7} {
+					val := gen.B("abcdefghijklmnop")
+					val[off], val[off+1] = pair[0], pair[1]
+					if !emit(val) {
+						return false
+					}
+				}
+			}
+		}
+	}
+	return true
+}
